@@ -26,6 +26,7 @@ FS = ["id", "inc", "dbl"]
 
 class Gen:
     mixed_api = 0.0   # probability that a request / stream of a command script uses the capability API
+    p_chan = float(os.environ.get("GEN_PCH", "0.10"))   # probability that a script step is a task-to-task channel step
     p_then_stream = float(os.environ.get("GEN_PTS", "0.12"))   # probability that a chain has a then_stream stage
 
     def __init__(self, rng, ids, max_depth=3, family="mixed", script_budget=8):
@@ -108,14 +109,18 @@ class Gen:
             return {"r": self.r.randint(1, 4)}
         return {"c": self.r.randint(1, 9)}
 
-    def leaf(self, handles, streams):
+    def leaf(self, handles, streams, rxs=()):
         r = self.r
         opts = ["req", "req"]
         if handles and self.family != "legacy":
             opts.append("joinh")
         if streams:
             opts.append("next")
+        if rxs:
+            opts += ["recv", "recv"]
         k = r.choice(opts)
+        if k == "recv":
+            return {"k": "recv", "c": r.choice(list(rxs))}
         if k == "req":
             lf = {"k": "req", "tag": self.tag(), "src": self.src()}
             if r.random() < self.mixed_api:
@@ -125,17 +130,59 @@ class Gen:
             return {"k": "joinh", "h": r.choice(handles)}
         return {"k": "next", "s": r.choice(streams)}
 
-    def script(self, budget, inherited_handles, depth):
-        """returns a list of instructions (1-based pcs inside)"""
+    def script(self, budget, inherited_handles, depth, chans=None):
+        """returns a list of instructions (1-based pcs inside)
+        chans: slot -> role of this task on the task-to-task channel in that slot ("rx": it is the one task
+        that receives, "tx": it only sends; "down": it created the channel and the next task it spawns is
+        the receiver)"""
         r = self.r
         code = []
         handles = list(inherited_handles)
         streams = []
+        chans = dict(chans or {})
         n = r.randint(1, max(1, budget))
         while n > 0:
             n -= 1
             k = r.choice(["emit", "notify", "req", "req", "loop", "spawn", "abort", "joinh",
                           "join", "select", "select", "yield", "open"])
+            if self.family in ("script", "mixed") and r.random() < self.p_chan:
+                k = r.choice(["chan", "chan", "send", "send", "recv", "recv", "closec"])
+                rxs = [c for c, role in chans.items() if role == "rx"]
+                txs = [c for c, role in chans.items() if role in ("tx", "down")]
+                if k == "chan":
+                    free = [c for c in (1, 2) if c not in chans]
+                    if free and depth <= 2:
+                        c = free[0]
+                        chans[c] = r.choice(["rx", "down"])
+                        code.append({"op": "chan", "c": c})
+                        n += 1          # a channel wants a task on its other end
+                        k = "spawn"
+                    else:
+                        continue
+                elif k == "send" and txs:
+                    code.append({"op": "send", "c": r.choice(txs), "src": self.src()})
+                    continue
+                elif k == "closec" and (txs or rxs):
+                    c = r.choice(txs + rxs)
+                    code.append({"op": "closec", "c": c})
+                    if chans[c] != "rx":
+                        chans[c] = "closed"
+                    continue
+                elif k == "recv" and rxs:
+                    c = r.choice(rxs)
+                    dst = r.randint(1, 4)
+                    if r.random() < 0.5:
+                        code.append({"op": "recv", "c": c, "dst": dst, "else": len(code) + 3})
+                        code.append({"op": "emit", "tag": self.tag(), "src": {"r": dst}})
+                    else:
+                        # drain loop: until the channel is closed and empty
+                        head = len(code) + 1
+                        code.append({"op": "recv", "c": c, "dst": dst, "else": head + 3})
+                        code.append({"op": "emit", "tag": self.tag(), "src": {"r": dst}})
+                        code.append({"op": "goto", "pc": head})
+                    continue
+                else:
+                    continue
             if self.family != "legacy" and self.cmd_ids and r.random() < 0.04:
                 # the task aborts a command itself (its own, an enclosing one, or another one)
                 code.append({"op": "abortc", "id": r.choice(self.cmd_ids[-4:])})
@@ -198,7 +245,18 @@ class Gen:
                 if not free or depth > 3:
                     continue
                 h = free[0]
-                child = self.script(max(1, budget // 2), handles, depth + 1)
+                # roles on the channels the child inherits: the first child spawned after a "down" channel
+                # was created is its receiver; everybody else sends
+                croles = {}
+                for c, role in list(chans.items()):
+                    if role == "down":
+                        croles[c] = "rx"
+                        chans[c] = "tx"
+                    elif role in ("rx", "tx"):
+                        croles[c] = "tx"
+                    else:
+                        croles[c] = "closed" if role == "closed" else "tx"
+                child = self.script(max(1, budget // 2), handles, depth + 1, croles)
                 code.append({"op": "spawn", "script": {"tid": self.ids.next(), "code": child}, "h": h})
                 handles.append(h)
             elif k == "abort":
@@ -211,10 +269,13 @@ class Gen:
                 m = r.choice([1, 2, 2, 3])
                 ss = list(streams)
                 leaves = []
+                rx = [c for c, role in chans.items() if role == "rx"]
                 for _ in range(m):
-                    lf = self.leaf(handles, ss)
+                    lf = self.leaf(handles, ss, rx)
                     if lf["k"] == "next":
                         ss.remove(lf["s"])
+                    if lf["k"] == "recv":
+                        rx = [c for c in rx if c != lf["c"]]
                     leaves.append(lf)
                 dst = r.sample([1, 2, 3, 4], m)
                 dst = [d if r.random() < 0.8 else 0 for d in dst]
@@ -225,10 +286,13 @@ class Gen:
                 m = r.choice([2, 2, 3])
                 ss = list(streams)
                 leaves = []
+                rx = [c for c, role in chans.items() if role == "rx"]
                 for _ in range(m):
-                    lf = self.leaf(handles, ss)
+                    lf = self.leaf(handles, ss, rx)
                     if lf["k"] == "next":
                         ss.remove(lf["s"])
+                    if lf["k"] == "recv":
+                        rx = [c for c in rx if c != lf["c"]]
                     leaves.append(lf)
                 d, i = r.sample([1, 2, 3, 4], 2)
                 code.append({"op": "select", "leaves": leaves, "dst": d, "idx": i})
